@@ -1,0 +1,30 @@
+//! Verification hooks (feature `verif-hooks`): thread-local counters, no behaviour change.
+use std::cell::{Cell, RefCell};
+use std::collections::BTreeMap;
+
+thread_local! {
+    static STALE: RefCell<BTreeMap<String, u64>> = RefCell::new(BTreeMap::new());
+    static COLLECTIONS: Cell<u64> = const { Cell::new(0) };
+    static SWEPT: Cell<u64> = const { Cell::new(0) };
+}
+
+pub fn stale_event(op: &'static str) {
+    let bt = std::backtrace::Backtrace::force_capture().to_string();
+    let mut frames: Vec<&str> = Vec::new();
+    for line in bt.lines() {
+        let l = line.trim();
+        if let Some(idx) = l.find("tsrun::") {
+            let f = &l[idx..];
+            if f.contains("verif_hooks") || f.contains("gc::Gc") { continue; }
+            frames.push(f);
+            if frames.len() >= 3 { break; }
+        }
+    }
+    let key = format!("{} @ {}", op, frames.join(" < "));
+    STALE.with(|s| *s.borrow_mut().entry(key).or_insert(0) += 1);
+}
+pub fn count_collection() { COLLECTIONS.with(|c| c.set(c.get() + 1)); }
+pub fn count_swept() { SWEPT.with(|c| c.set(c.get() + 1)); }
+pub fn take_stale() -> BTreeMap<String, u64> { STALE.with(|s| std::mem::take(&mut *s.borrow_mut())) }
+pub fn collections() -> u64 { COLLECTIONS.with(|c| c.get()) }
+pub fn swept() -> u64 { SWEPT.with(|c| c.get()) }
